@@ -266,6 +266,7 @@ func init() {
 		e.c04Shape(s, th, "timeoutWriter.WriteHeader", "twWriteHeaderShape", nil)
 		e.c04Shape(s, th, "timeoutWriter.writeHeaderLocked", "twWriteHeaderLockedShape", nil)
 		e.c04Shape(s, th, "timeoutWriter.Flush", "twFlushShape", nil)
+		e.c04DetailDef(s, th, "timeoutWriter.Flush", "twFlushDetail", nil)
 		e.c04Shape(s, th, "timeoutWriter.Header", "twHeaderShape", nil)
 
 		// zRPC server: the interceptor closure (4 parameters)
